@@ -10,6 +10,7 @@ import (
 	"os"
 	"sort"
 	"strings"
+	"sync"
 	"time"
 
 	"github.com/grpc-ecosystem/go-grpc-middleware/util/metautils"
@@ -25,7 +26,9 @@ import (
 )
 
 var words = []string{"AetherROCAdmin", "EnterpriseAdmin", "Admin", "ROC", "users", "", "a", "Aether", "charlie",
-	"EnterpriseAdmin2", "aetherrocadmin", "AetherROCAdmin,EnterpriseAdmin", "t1", "t2", "t3", "AetherROC", "dmin", ",", ";", " ", "Enterprise", "mixedGroup", "é"}
+	"EnterpriseAdmin2", "aetherrocadmin", "AetherROCAdmin,EnterpriseAdmin", "t1", "t2", "t3", "AetherROC", "dmin", ",", ";", " ", "Enterprise", "mixedGroup", "é",
+	// group names with blanks inside: one group each, never the words they contain
+	"Friends of AetherROCAdmin", "retired AetherROCAdmin", "operators of t3", "t1 t2", "t2\tt3", "AetherROCAdmin ", " t1", "RocBoss staff", "EnterpriseAdmin team"}
 
 func genGroupList(r *rand.Rand, sep string) string {
 	n := r.Intn(4)
@@ -60,6 +63,7 @@ func main() {
 	nEval := flag.Int("eval", 5000, "")
 	nSet := flag.Int("set", 150, "")
 	nList := flag.Int("list", 400, "")
+	nOverlap := flag.Int("overlap", 120, "")
 	corpus := flag.String("corpus", "", "file with extra admin<TAB>groups lines (hex) evaluated first")
 	flag.Parse()
 	env.Quiet()
@@ -196,5 +200,73 @@ func main() {
 			o = "1"
 		}
 		fmt.Fprintf(out, "rbac.list\t%d:l%d\t%s\t%s\t%s\t%s\t%s\t%s\n", *seed, i, o, env.Hx(ovr), env.Hx(name), env.Hx(groups), env.HxList(targets), env.HxList(reported))
+	}
+
+	// overlapping listings: the first caller is held inside the topology List call until a second, complete listing by
+	// another caller has been served; each must still see exactly what its OWN groups name
+	os.Setenv("OIDC_SERVER_URL", "http://dex:5556")
+	os.Unsetenv("AetherROCAdmin")
+	listOnce := func(groups, name string) []string {
+		pairs := []string{"groups", groups}
+		if name != "" {
+			pairs = append(pairs, "name", name)
+		}
+		ctx := metadata.NewIncomingContext(context.Background(), metadata.Pairs(pairs...))
+		resp, err := e.Gnmi.Get(ctx, &gnmi.GetRequest{Path: []*gnmi.Path{{Target: "*"}}, Encoding: gnmi.Encoding_PROTO})
+		reported := []string{}
+		if err != nil {
+			reported = []string{"ERROR:" + status.Code(err).String()}
+		} else {
+			for _, n := range resp.Notification {
+				for _, u := range n.Update {
+					for _, el := range u.Val.GetLeaflistVal().GetElement() {
+						reported = append(reported, el.GetStringVal())
+					}
+				}
+			}
+		}
+		sort.Strings(reported)
+		return reported
+	}
+	for i := 0; i < *nOverlap; i++ {
+		gA := genGroupList(r, ";")
+		if r.Intn(2) == 0 {
+			gA = env.Pick(r, []string{"t1", "t2", "users", "t3;users", "charlie"})
+		}
+		gB := genGroupList(r, ";")
+		if r.Intn(2) == 0 {
+			gB = env.Pick(r, []string{"AetherROCAdmin", "AetherROCAdmin;t1", "t2;t3;AetherROCAdmin", "t3"})
+		}
+		var mu sync.Mutex
+		first := true
+		entered := make(chan struct{})
+		release := make(chan struct{})
+		e.Topo.SetOnList(func() {
+			mu.Lock()
+			f := first
+			first = false
+			mu.Unlock()
+			if f {
+				close(entered)
+				<-release
+			}
+		})
+		doneA := make(chan []string, 1)
+		go func() { doneA <- listOnce(gA, "alice") }()
+		var repA, repB []string
+		select {
+		case <-entered:
+			repB = listOnce(gB, "bob")
+			close(release)
+			repA = <-doneA
+		case repA = <-doneA: // the listing never asked the topology: nothing to overlap with
+			repB = listOnce(gB, "bob")
+		case <-time.After(20 * time.Second):
+			repA = []string{"ERROR:stalled"}
+			close(release)
+		}
+		e.Topo.SetOnList(nil)
+		fmt.Fprintf(out, "rbac.list\t%d:oa%d\t1\t-\t%s\t%s\t%s\t%s\n", *seed, i, env.Hx("alice"), env.Hx(gA), env.HxList(targets), env.HxList(repA))
+		fmt.Fprintf(out, "rbac.list\t%d:ob%d\t1\t-\t%s\t%s\t%s\t%s\n", *seed, i, env.Hx("bob"), env.Hx(gB), env.HxList(targets), env.HxList(repB))
 	}
 }
